@@ -111,6 +111,10 @@ def run(ctx):
     ok_p = vlib.step_prove(ctx) if ok_x else False
     n = 150 if ctx.tier == "quick" else 3000
     progs = strict_gen.FIXED + strict_gen.programs(ctx.seed, n)
+    rp = vlib.replay_case(ctx)
+    if rp is not None and "source_text" in rp:
+        progs = [(rp.get("family", "replay"), rp["source_text"])]
+        ctx.note("replay: the program of " + ctx.replay)
     res = run_impl([t for _, t in progs])
     hist = collections.Counter()
     nnodes = 0
@@ -147,7 +151,7 @@ def run(ctx):
                         "if_else, lists, comprehensions and for-loops over range, sum, str, helper functions, annotated assignments; every "
                         "sixth with one deliberate type error) plus fixed edge programs; every typed expression node is instrumented and the "
                         "program executed under the audit classes",
-                   samples=[dict(family=progs[i][0], source_text=progs[i][1][:300]) for i in (4, 5, 10)],
+                   samples=[dict(family=progs[i][0], source_text=progs[i][1][:300]) for i in (4, 5, 10) if i < len(progs)],
                    traces_validated_against_impl=len(progs), typed_nodes_compared=nnodes,
                    histogram={str(k): v for k, v in hist.items()})
     return vlib.finish(ctx)
